@@ -22,7 +22,10 @@ if not os.path.exists(path):
     img = rng.normal(size=(rows, cols)).astype(np.float32)
     nr = cfg.get("nan_rows")
     if nr:
-        img[nr[0]:nr[1], 3:9] = np.nan          # blank pixels in some stripes only
+        if cfg.get("nan_full"):
+            img[nr[0]:nr[1], :] = np.nan        # a whole stripe and its half-box margin blank (mosaic padding)
+        else:
+            img[nr[0]:nr[1], 3:9] = np.nan      # blank pixels in some stripes only
     fits.PrimaryHDU(img).writeto(path)
 fail = cfg.get("fail_stripe")
 if fail is not None:
@@ -74,7 +77,7 @@ def leaked(memory_id):
 
 def config_failures(cfg, tmp):
     out = []
-    tag = "_nan%d_%d" % tuple(cfg["nan_rows"]) if cfg.get("nan_rows") else ""
+    tag = ("_nan%d_%d" % tuple(cfg["nan_rows"]) + ("f" if cfg.get("nan_full") else "")) if cfg.get("nan_rows") else ""
     cfg = dict(cfg, path=os.path.join(tmp, "im_%d_%d%s.fits" % (cfg["rows"], cfg["cols"], tag)), out=os.path.join(tmp, "o.npy"))
     r = run_cfg(cfg)
     if r.get("hang"):
@@ -99,7 +102,7 @@ def config_failures(cfg, tmp):
     if r.get("raised"):
         out.append(("no_exception", "raised %s" % r["raised"]))
         return out, None
-    nblank = (cfg["nan_rows"][1] - cfg["nan_rows"][0]) * 6 if cfg.get("nan_rows") else 0
+    nblank = (cfg["nan_rows"][1] - cfg["nan_rows"][0]) * (cfg["cols"] if cfg.get("nan_full") else 6) if cfg.get("nan_rows") else 0
     if r["finite_bkg"] != r["size"] - nblank or r["finite_rms"] != r["size"] - nblank or r["zero_rows"]:
         out.append(("stripes.tile_the_rows", "not every output pixel was written (%d/%d finite, %d all-zero rows)" % (
             r["finite_rms"], r["size"], r["zero_rows"])))
@@ -116,6 +119,7 @@ def crosscheck(p):
             # blank pixels in one stripe only / in the middle stripe only (masking on): every worker must still take part in every barrier
             dict(rows=100, cols=40, grid=10, box=30, cores=2, stripes=2, nan_rows=[60, 70]),
             dict(rows=120, cols=40, grid=10, box=30, cores=3, stripes=3, nan_rows=[50, 58]),
+            dict(rows=120, cols=40, grid=10, box=20, cores=2, stripes=2, nan_rows=[0, 75], nan_full=True),
             # layouts whose last stripe is a sliver
             dict(rows=100, cols=40, grid=8, box=24, cores=3, stripes=3), dict(rows=130, cols=40, grid=16, box=48, cores=4, stripes=4),
             dict(rows=75, cols=40, grid=12, box=36, cores=2, stripes=2)]
